@@ -353,3 +353,44 @@ Fixpoint lifespan (cs : list comp) (msgs : list lmsg) : list levent * lending :=
     end
   | LOther :: tl => lifespan cs tl
   end.
+
+(* ---- App.__init__(middleware=...) and App.add_middleware(...): the stack is built in
+   several steps.  Every call extends `_unprepared_middleware` and then re-prepares the WHOLE
+   accumulated list; if prepare_middleware raises TypeError the list has already been
+   extended while `_middleware` keeps its previous value. *)
+Inductive batch :=
+| BNone                     (* None *)
+| BOne (c : comp)           (* a single, non-iterable component *)
+| BMany (l : list comp).    (* an iterable of components *)
+
+Definition batch_list (b : batch) : list comp :=
+  match b with BNone => [] | BOne c => [c] | BMany l => l end.
+
+Record fapp := {
+  a_unprepared : list comp;        (* self._unprepared_middleware *)
+  a_stacks : option stacks         (* self._middleware (None: never successfully prepared) *)
+}.
+
+(* returns the new state and whether the call returned normally (false = TypeError) *)
+Definition add_middleware (asgi indep : bool) (a : fapp) (b : batch) : fapp * bool :=
+  let un := a_unprepared a ++ batch_list b in   (* self._unprepared_middleware += middleware *)
+  match prepare asgi indep un with
+  | Some st => ({| a_unprepared := un; a_stacks := Some st |}, true)
+  | None => ({| a_unprepared := un; a_stacks := a_stacks a |}, false)
+  end.
+
+(* the constructor: a TypeError leaves no fapp at all *)
+Definition new_app (asgi indep : bool) (b : batch) : option fapp :=
+  match add_middleware asgi indep {| a_unprepared := []; a_stacks := None |} b with
+  | (a, true) => Some a
+  | (_, false) => None
+  end.
+
+(* later add_middleware calls; the application may catch a TypeError and go on *)
+Fixpoint add_all (asgi indep : bool) (a : fapp) (bs : list batch) : fapp * list bool :=
+  match bs with
+  | [] => (a, [])
+  | b :: tl =>
+    let '(a1, ok) := add_middleware asgi indep a b in
+    let '(a2, oks) := add_all asgi indep a1 tl in (a2, ok :: oks)
+  end.
